@@ -459,6 +459,7 @@ def _device_reports(run):
     base = P.cls("ledger.hsm2dongle.HSM2Dongle")
     want = {
         "get_current_mode": {"self.MODE(self._send_command(self.CMD.GET_MODE)[1])"},
+        "is_onboarded": {"self._send_command(self.CMD.IS_ONBOARD)[1] == 1"},
     }
     for dc in dongle_classes(run):
         for mname, wv in want.items():
@@ -470,6 +471,11 @@ def _device_reports(run):
             run.check("R3", rv == {_strip(w) for w in wv}, f"{dc.name}.{mname} reports the device's own answer", key=f"{dc.name}.{mname}|source", where=m.loc(),
                       message=f"{dc.name}.{mname} (defined in {own.name}) returns {sorted(rv)[:3]}; expected the mode byte of a fresh GET_MODE answer (UNKNOWN only "
                               "when the exchange fails): a mode the device did not report would let the bring-up unlock / serve in a state it must stop in")
+            if mname != "get_current_mode":
+                hs = [h for n in A.own_nodes(m) if isinstance(n, ast.Try) for h in n.handlers]
+                run.check("R3", not hs, f"{dc.name}.{mname}: a failed query is not an answer", key=f"{dc.name}.{mname}|handlers", where=m.loc(),
+                          message=f"{dc.name}.{mname} turns a failed exchange ({[norm(h.type) if h.type is not None else 'any exception' for h in hs]}) into an answer: "
+                                  "`not onboarded` / `onboarded` would then be decided without the device having said so (a seed and a wipe, or a PIN, sent on a guess)")
             if mname == "get_current_mode":
                 hs = [h for n in A.own_nodes(m) if isinstance(n, ast.Try) for h in n.handlers]
                 okh = all(norm(h.type) in ("HSM2DongleError",) for h in hs if h.type is not None) and all(h.type is not None for h in hs) \
